@@ -907,41 +907,6 @@ theorem sorted_value (fn : Option Nat) (reverse : Bool) (s : Nat) (kf : Val → 
   rw [sortKeyed_value reverse kf items hall] at h
   exact h
 
-theorem nBest_zero (largest : Bool) (fn : Option Nat) (s fuel : Nat) (w : World) :
-    Std.nBest largest 0 fn s fuel w = (.ok (.lst []), w) := by
-  simp [Std.nBest, pure_apply]
-
-/-- `nlargest`/`nsmallest` (the CPython meaning) for `n > 0` and arbitrary keys -/
-theorem nBest_gen (largest : Bool) (n : Nat) (fn : Option Nat) (s : Nat) (kf : Val → Val)
-    (items : List Val) (fuel : Nat) (w : World) (hn : n ≠ 0)
-    (hf : Feeds w s items) (hk : KeyFn w fn kf) (hlt : items.length < fuel) :
-    (Std.nBest largest n fn s fuel w).1 =
-      (match Std.sortKeyed largest (items.map (fun x => (kf x, x))) with
-        | .ok r => .ok (.lst (r.take n)) | .error e => .error e) ∧
-    ((Std.nBest largest n fn s fuel w).2.srcs s).script = [] ∧
-    (Std.nBest largest n fn s fuel w).2.vis = w.vis ++ ListSpec.keyedPullLog s fn kf items ++ ListSpec.endLog s := by
-  have h := collectKeyed_value fn s kf items [] fuel w hf hk hlt
-  rcases hc : Std.collectKeyed fn s [] fuel w with ⟨r, w1⟩
-  rw [hc] at h
-  obtain ⟨h1, h2, h3⟩ := h
-  simp only at h1 h2 h3
-  subst h1
-  simp only [Std.nBest, hn, if_false, bind_apply, hc, List.nil_append, liftExc_apply]
-  cases Std.sortKeyed largest (items.map (fun x => (kf x, x))) with
-  | ok r => exact ⟨rfl, h2, h3⟩
-  | error e => exact ⟨rfl, h2, h3⟩
-
-theorem nBest_value (largest : Bool) (n : Nat) (fn : Option Nat) (s : Nat) (kf : Val → Val)
-    (items : List Val) (fuel : Nat) (w : World) (hn : n ≠ 0)
-    (hf : Feeds w s items) (hk : KeyFn w fn kf) (hall : ∀ x ∈ items, (kf x).orderable = true)
-    (hlt : items.length < fuel) :
-    (Std.nBest largest n fn s fuel w).1 = .ok (.lst (ListSpec.nBest largest n (fun x => (kf x).ikey) items)) ∧
-    ((Std.nBest largest n fn s fuel w).2.srcs s).script = [] ∧
-    (Std.nBest largest n fn s fuel w).2.vis = w.vis ++ ListSpec.keyedPullLog s fn kf items ++ ListSpec.endLog s := by
-  have h := nBest_gen largest n fn s kf items fuel w hn hf hk hlt
-  rw [sortKeyed_value largest kf items hall] at h
-  exact h
-
 /-- asyncstdlib's `sorted` collects inside the scope and sorts outside: same outcome, for arbitrary keys -/
 theorem impl_sorted_gen (fn : Option Nat) (reverse : Bool) (s : Nat) (kf : Val → Val)
     (items : List Val) (fuel : Nat) (w : World)
@@ -1185,10 +1150,6 @@ theorem oc_collectKeyed (fn : Option Nat) (s fuel : Nat) : ∀ acc, OnlyConsumes
   induction fuel with
   | zero => intro acc; unfold collectKeyed; ocs
   | succ fuel ih => intro acc; unfold collectKeyed; ocs [ih]
-
-theorem oc_nBest (largest : Bool) (n : Nat) (fn : Option Nat) (s fuel : Nat) :
-    OnlyConsumes s (nBest largest n fn s fuel) := by
-  unfold nBest; ocs [oc_collectKeyed fn s fuel]
 
 end Std
 
